@@ -191,6 +191,8 @@ def _eval_task(args):
         rcode = R["result"].astype(np.int32) * 1000 + R["post_D"] * 100 + R["delivered"] * 10 + rsid
         rs_val = np.select([R["post_s"] == 0, R["post_s"] == 1], [Sb, Kb], 0)
         cover = np.zeros(rcode.shape, dtype=np.int8)
+        first_code = np.full(rcode.shape, -1, dtype=np.int64)
+        conflict = np.zeros(rcode.shape, dtype=bool)
         for c, mask in zip(cells, masks):
             if mask is None:
                 continue
@@ -202,6 +204,10 @@ def _eval_task(args):
             cover += mask
             csid = 0 if id_equal else SID.get(c.post_sid, 9)
             ccode = RES.get(c.result, 9) * 1000 + DD.get(c.post_D, 9) * 100 + DEL.get(c.delivered, 9) * 10 + csid
+            # two transitions over the same point are a contradiction only if they disagree
+            full = ccode * 10 + {"s": 0, "k": 1, "0": 2}.get(c.post_s, 9)
+            conflict |= mask & (first_code != -1) & (first_code != full)
+            first_code = np.where(mask & (first_code == -1), full, first_code)
             cs_val = {"s": Sb, "k": Kb, "0": 0}.get(c.post_s)
             bad = mask & (rcode != ccode)
             bad_s = mask & (rs_val != cs_val) if cs_val is not None else mask
@@ -238,8 +244,8 @@ def _eval_task(args):
             pt = (int(v[idx[0]]), int(v[idx[1]]), int(svals[idx[2]]))
             out.append(("v", "fsm/uncovered/k%d,n%d,s%d,%s,decode%d,u%d,p%d" % (pt[0], pt[1], pt[2], cname, decode, u_ok, p_ok),
                         "no extracted transition covers k=%d n=%d s=%d ids %s decode=%d (a panic or an unanalysed path)" % (pt[0], pt[1], pt[2], cname, decode), gi))
-        if (cover > 1).any():
-            idx = tuple(np.argwhere(cover > 1)[0])
+        if conflict.any():
+            idx = tuple(np.argwhere(conflict)[0])
             pt = (int(v[idx[0]]), int(v[idx[1]]), int(svals[idx[2]]))
             out.append(("v", "fsm/overlap/k%d,n%d,s%d,%s" % (pt[0], pt[1], pt[2], cname), "two extracted transitions cover k=%d n=%d s=%d ids %s" % (pt[0], pt[1], pt[2], cname), gi))
     return out, npoints, ncells, cname, decode
@@ -339,8 +345,15 @@ def run(ctx, chk):
                     fillk = ("int", 64, False, ("lin", ((A["fill"], 1),), 0))
                     chk.ob(a1 == fillk, "C05/unarmor-fill/%r" % (a1[3] if len(a1) > 3 else a1,), "reassembly [%s]: unarmor's fill argument is not the last sentence's fill count: %r" % (cfg, a1),
                            sample={"cell": c.result, "delivered": c.delivered, "unarmor_args": [dn, "fill"]})
-            if c.result in ("ok:Complete", "ok:Incomplete") and c.atoms["decode"] is not None:
-                pass
+            # "split at arbitrary character boundaries": a fragment's payload field must be accepted
+            # whatever its characters are - any non-empty run of bytes other than ',' (up to the
+            # buffer capacity without an allocator), with no predicate on its content
+            pe = c.roles["payload"]
+            free = pe.kind == "take_until" and pe.param == b"," and getattr(pe, "first", None) is None and pe.values is None \
+                and not getattr(pe, "sub", None) and pe.lo <= 1 and (pe.hi is None or (cfg == "none" and pe.hi >= 384))
+            chk.ob(free, "C05/payload-field/%s/%s,%s/%s" % (pe.kind, pe.lo, pe.hi, "first" if getattr(pe, "first", None) is not None else ("sub" if getattr(pe, "sub", None) else "-")),
+                   "reassembly [%s]: the payload field is accepted only as %r%s; fragments may begin and end at arbitrary characters" % (
+                       cfg, pe, "" if getattr(pe, "first", None) is None else " with first byte in %r" % (pe.first,)))
         # ---- conversions of the result to Option / Result
         check_conversions(ctx, chk, fsm, cfg)
     chk.cov["configs"] = cfgs
